@@ -45,6 +45,7 @@ def main():
         return j + run(cmd, timeout=7200, env=env)
 
     probes = 0
+    grid = [0, 0]
     seen_keys = set()
     for (variant, depth, exp, exe, sh, nsh, rc, out, err) in pmap(one, jobs, jobs=NCPU):
         recs = [json.loads(l) for l in out.splitlines() if l.startswith("{")]
@@ -57,6 +58,8 @@ def main():
             continue
         r = recs[0]
         probes += r["reset_probes"]
+        grid[0] += r.get("grid_cells", 0)
+        grid[1] += r.get("grid_refused", 0)
         if sh == 0:
             per[variant] = {k: r[k] for k in ("states", "transitions", "traces", "calls", "alphabet", "max_depth")}
         if variant == "plain" and sh == 0:
@@ -84,6 +87,7 @@ def main():
                 "settings (same ratio, bit-identical events from identical tapes); a second, gA-focused alphabet (9 generator operations + the gA data "
                 "directory in the environment: none / table cut after three rows / complete) is explored two levels deeper",
         "behavioural_reset_probes": probes,
+        "invalid_configuration_grid": {"cells": grid[0], "refused": grid[1], "what": "energy-sum window on each of the 10 modes without window support x 6 (isotope, level) places incl. 2+ levels"},
         "per_build": per,
         "exhaustive": True,
     })
